@@ -35,6 +35,8 @@ def histories_from_tlc(cases):
             continue
         if ops[-1][0] != "close":
             ops.append(("close", 0))
+        if ops[0][0] == "readfrom":
+            ops = [ops[0], ("close", 0)]          # C02: "or a single ReadFrom"
         out.add(tuple(ops))
     return sorted(out)
 
@@ -61,7 +63,7 @@ def run(ctx):
                 "sides of the block size, WriteTo); distinct = distinct (history, options, input family, reader configuration)")
     b = vlib.build_harness()
     d = vlib.scratch("c02")
-    m = ctx.mc("MC_Writer", want_cases=True, timeout=900)
+    m = ctx.mc("MC_Writer", cfg="MC_Writer_gen", want_cases=True, timeout=900)
     hs = histories_from_tlc(m.cases)
     if len(hs) < 50:
         raise vlib.MachineryFault("only %d usable histories from MC_Writer" % len(hs))
@@ -85,6 +87,8 @@ def run(ctx):
             fam = rnd.choice(["text", "random", "blockmix", "zeros", "mixed"])
             if o["level"] > 2 and total > 100000 and fam in ("zeros", "mixed"):
                 fam = "text"
+            if o["legacy"] and fam in ("random", "blockmix"):
+                fam = "text"      # an incompressible 8 MiB legacy block is C09's known finding (raw legacy block)
             inp = {"family": fam, "len": total, "seed": rnd.randrange(1 << 30), "p1": B if fam == "blockmix" else rnd.randrange(1, 9)}
             if o.get("size") == -1:
                 o["size"] = total
